@@ -474,6 +474,32 @@ Theorem C17_valid_config_params : forall c : @config R,
 Proof. exact valid_config_params. Qed.
 Print Assumptions C17_valid_config_params.
 
+(* ---- round 5 ---------------------------------------------------------------------------------------------------- *)
+(* a job that started between two steps of a variable with timeStepFactor > 1, state written (after any number of sleeping steps) before the
+   variable's first update: no extended coordinate is written (saved_xv_opt = None); the new job leaves it unset and initialises it at its
+   first update, and from there on equals the uninterrupted job state for state *)
+Theorem C17_resume_before_first_update : forall (c : @config R) (p : @params R) (t : Z) (i : @input R) (l : list (@input R)),
+  i_running i = true -> (0 <= t < i_step i)%Z ->
+  List.Forall (fun j => i_running j = true /\ (i_step i < i_step j)%Z) l ->
+  saved_xv_opt Rops (init_state Rops) t = None /\
+  (forall n, saved_xv_opt Rops (Nat.iter n (sleep Rops) (init_state Rops)) t = None) /\
+  trace Rops c p (restart_state_opt Rops None) (map (shift_input t) (i :: l))
+  = map (shift_state t) (trace Rops c p (init_state Rops) (i :: l)).
+Proof. exact resume_before_first_update. Qed.
+Print Assumptions C17_resume_before_first_update.
+
+(* the state of the extended coordinate is (x_ext, v_ext) and nothing else: continuing from any live state with ANY parameters c, p (the engine
+   changed its time step in mid-session; or the state is loaded by a job with other fluctuation / time constant / friction) equals a fresh
+   object started from the integrated values with those parameters *)
+Theorem C17_continue_with_other_parameters : forall (c : @config R) (p : @params R) (s : @state R) (t : Z) xe (i : @input R) (l : list (@input R)),
+  s_x_ext s = Some xe -> s_after_restart s = false -> (0 <= t)%Z -> (0 <= s_prev_ts s < i_step i)%Z -> (t < i_step i)%Z ->
+  i_running i = true -> tsf_error c s i = false ->
+  List.Forall (fun j => i_running j = true /\ (i_step i < i_step j)%Z) l ->
+  trace Rops c p (restart_state Rops xe (s_v_ext s)) (map (shift_input t) (i :: l))
+  = map (shift_state t) (trace Rops c p s (i :: l)).
+Proof. exact continue_with_parameters. Qed.
+Print Assumptions C17_continue_with_other_parameters.
+
 (* ---- the premises are satisfiable ------------------------------------------------------------------------------- *)
 Definition ex_c : @config R := mkConfig 1 1 1 16 0 (1 / 2) 2%Z 0 1 false false 1 None false false.     (* factor 2, no boundary *)
 Definition ex_cr : @config R := mkConfig 1 1 1 16 0 1 1%Z 0 1 true true 1 None false false.      (* both boundaries reflecting *)
@@ -589,3 +615,5 @@ Proof.
   split; [cbn; lra | ]. unfold valid_config. cbn [nltb n0 Rops c_temp c_tol c_tau c_damping ex_c].
   rewrite !(proj2 (Rltb_true _ _)) by lra. rewrite (proj2 (Rltb_false _ _)) by lra. reflexivity.
 Qed.
+Example ex_before_first_update_premises : i_running (ex_i 2 (1 / 2)) = true /\ (0 <= 1 < i_step (ex_i 2 (1 / 2)))%Z.
+Proof. split; [reflexivity | cbn; lia]. Qed.
